@@ -34,7 +34,7 @@ Theorem set_transform_ok (w : wcs) (f g : fref) (t : option model) (i : nat) :
   wf w -> (S i < length (pipeline w))%nat ->
   fname f = nth i (names w) 0 -> fname g = nth (S i) (names w) 0 ->
   m_set_transform w f g t =
-  MOk (set_pipeline w (list_set (pipeline w) i (set_step_transform (nth i (pipeline w) dstep) t))).
+  MOk (set_approx (set_pipeline w (list_set (pipeline w) i (set_step_transform (nth i (pipeline w) dstep) t))) None).
 Proof.
   intros Hwf Hi Hf Hg. unfold m_set_transform. rewrite !get_frame_name_spec.
   destruct (pipeline w) as [|s0 p] eqn:Ep; [cbn in Hi; lia|]. cbn [truthy_list negb]. rewrite <- Ep in *.
@@ -67,8 +67,8 @@ Theorem insert_transform_before (w : wcs) (f : fref) (a b : model) (i : nat) :
   wf w -> (S i < length (pipeline w))%nat -> fname f = nth (S i) (names w) 0 ->
   step_transform (nth i (pipeline w) dstep) = Some a ->
   m_insert_transform w f (Some b) false =
-  MOk (set_pipeline w (list_set (pipeline w) i
-        (set_step_transform (nth i (pipeline w) dstep) (Some {| te := Pipe (te a) (te b); mbox := None |})))).
+  MOk (set_approx (set_pipeline w (list_set (pipeline w) i
+        (set_step_transform (nth i (pipeline w) dstep) (Some {| te := Pipe (te a) (te b); mbox := None |})))) None).
 Proof.
   intros Hwf Hi Hf Ha. unfold m_insert_transform. rewrite get_frame_name_spec.
   rewrite (gfi_at w (FStr (fname f)) (S i)) by (try assumption; cbn [fname]; lia). cbn [negb].
@@ -81,8 +81,8 @@ Theorem insert_transform_after (w : wcs) (f : fref) (a b : model) (i : nat) :
   wf w -> (i < length (pipeline w))%nat -> fname f = nth i (names w) 0 ->
   step_transform (nth i (pipeline w) dstep) = Some a ->
   m_insert_transform w f (Some b) true =
-  MOk (set_pipeline w (list_set (pipeline w) i
-        (set_step_transform (nth i (pipeline w) dstep) (Some {| te := Pipe (te b) (te a); mbox := None |})))).
+  MOk (set_approx (set_pipeline w (list_set (pipeline w) i
+        (set_step_transform (nth i (pipeline w) dstep) (Some {| te := Pipe (te b) (te a); mbox := None |})))) None).
 Proof.
   intros Hwf Hi Hf Ha. unfold m_insert_transform. rewrite get_frame_name_spec.
   rewrite (gfi_at w (FStr (fname f)) i) by (try assumption; cbn [fname]; lia). cbn [negb].
@@ -106,8 +106,8 @@ Qed.
 Theorem insert_frame_new_input (w : wcs) (n id : Z) (t : option model) (g : fref) (j : nat) :
   wf w -> (j < length (pipeline w))%nat -> fname g = nth j (names w) 0 -> ~ In n (names w) ->
   m_insert_frame w (FObj n id) t g =
-  MOk (setattr (set_pipeline w (firstn j (pipeline w) ++ [mk_step (FObj n id) t] ++ skipn j (pipeline w)))
-               (FStr n) (Some (FObj n id))).
+  MOk (set_approx (setattr (set_pipeline w (firstn j (pipeline w) ++ [mk_step (FObj n id) t] ++ skipn j (pipeline w)))
+               (FStr n) (Some (FObj n id))) None).
 Proof.
   intros Hwf Hj Hg Hn. unfold m_insert_frame. rewrite !get_frame_name_spec. cbn [fname].
   rewrite (gfi_unknown w (FObj n id)) by (cbn [fname]; assumption). cbn [bind catch err_eqb].
@@ -121,11 +121,11 @@ Qed.
 Theorem insert_frame_new_output (w : wcs) (f : fref) (t : option model) (n id : Z) (i : nat) :
   wf w -> (i < length (pipeline w))%nat -> fname f = nth i (names w) 0 -> ~ In n (names w) ->
   m_insert_frame w f t (FObj n id) =
-  MOk (setattr (set_pipeline w (firstn i (pipeline w) ++
+  MOk (set_approx (setattr (set_pipeline w (firstn i (pipeline w) ++
                                 [mk_step (step_frame (nth i (pipeline w) dstep)) t;
                                  mk_step (FObj n id) (step_transform (nth i (pipeline w) dstep))] ++
                                 skipn (S i) (pipeline w)))
-               (FStr n) (Some (FObj n id))).
+               (FStr n) (Some (FObj n id))) None).
 Proof.
   intros Hwf Hi Hf Hn. unfold m_insert_frame. rewrite !get_frame_name_spec. cbn [fname].
   rewrite (gfi_at w f i) by assumption. cbn [bind catch].
